@@ -185,6 +185,7 @@ _G_SAFEDIV = _v2p("^VerifC15_safeDivide$", dict(n=[1, 2, 3]), dict(n=[1, 2, 3, 4
 _G_RFAULT = _v2p("^VerifC15_round_fault$", dict(n=[1, 2], Hmax=[3]), dict(n=[1, 2], Hmax=[4]))
 _G_RUNFAULT = _v2p("^VerifC15_run_fault$", dict(n=[1, 2], H=[1, 2], J=[1]), dict(n=[1, 2], H=[1, 2, 3], J=[1, 2]))
 _G_ROUND = _v2p("^Verif(C05_saturated_round|C06_progress|C06_sole_priority)$", dict(n=[1, 2], Hmax=[3]), dict(n=[1, 2, 3], Hmax=[4]))
+_G_SAT3 = _v2p("^VerifC05_saturated_round$", dict(n=[3], Hmax=[3]), dict(n=[3], Hmax=[3]))
 _G_ROUND2 = _v2p("^VerifC06_progress_two_rounds$", dict(n=[2, 3], Hmax=[3]), dict(n=[2, 3, 4], Hmax=[4]))
 _G_RUN = _v2p("^VerifC02_run$", dict(n=[1, 2], H=[1, 2], J=[1]), dict(n=[1, 2], H=[1, 2, 3], J=[1]), maxpaths=400000, approx=True)
 _G_SIMPLE = dict(mod="v2", pkg="priority/simple", overlay="harness/v2/simple", harness="^VerifC01_simple_handler$",
@@ -208,7 +209,7 @@ _prio("C02", "Exactly-once, correctly tagged, FIFO per priority: pending-item mo
       [_G_STEP_A, _G_STEP_B, _G_PRIOR, _G_LOOP1, _G_RUN, _G_SIMPLE])
 _prio("C05", "Saturation: from any state with actual[p] <= strategic[p] (shares as the constructor leaves them) and every input never empty, after any batch of releases one real base() round ends with "
       "actual[p] == strategic[p] for every p, every hand-out keeps actual[p] <= strategic[p], and waits only when all handlers are busy; the constructor sorts priorities high->low before dividing (any Inputs map order).",
-      [_G_ROUND, _G_NEW])
+      [_G_ROUND, _G_SAT3, _G_NEW])
 _prio("C06", "Progress, reduced to solver-decidable obligations plus the ranking argument of DESIGN 7 C06: (P0) constructor guarantees every share >= 1 and shares sum to H; (P1) the discipline blocks on feedback only while "
       "something is in flight (loop/main/run harnesses); (P2) nothing in flight + data somewhere => an item is delivered in one round without a release; (P3) a round proceeds only if every uncrowded priority got >= 1; "
       "(P4) a sole active priority reaches H in one round.",
@@ -253,6 +254,7 @@ _V1_PROMPT = _v1p("^VerifC07_v1_prompt$", dict(n=[1, 2, 3], B=[2]), dict(n=[1, 2
 _V1_ROUND = _v1p("^Verif(C05_saturated_round|C06_progress|C06_sole_priority)$", dict(n=[1, 2], Hmax=[3]), dict(n=[1, 2, 3], Hmax=[4]))
 _V1_RFAULT = _v1p("^VerifC15_round_fault$", dict(n=[1, 2], Hmax=[3]), dict(n=[1, 2], Hmax=[4]))
 _V1_RUNFAULT = _v1p("^VerifC15_v1_run_fault$", dict(n=[1, 2], H=[1, 2], J=[1]), dict(n=[1, 2], H=[1, 2, 3], J=[1, 2]))
+_V1_SAT3 = _v1p("^VerifC05_saturated_round$", dict(n=[3], Hmax=[3]), dict(n=[3], Hmax=[3]))
 _V1_NEW = _v1p("^VerifC15_v1_new$", dict(n=[1, 2, 3]), dict(n=[1, 2, 3, 4]))
 _SCZ7 = [dict(msg="GracefulStop never completes", file="replay/v1/priority/c16_scenario_test.go", test="TestVerifScenarioC07ZeroShare")]
 _SCZ6 = [dict(msg="an item is delivered without any release", file="replay/v1/priority/c16_scenario_test.go", test="TestVerifScenarioC06ZeroShare")]
@@ -265,7 +267,7 @@ _V1_C17 = [_V1_C17RUN, _v1p("^VerifC17_step_", dict(n=[1, 2, 3]), dict(n=[1, 2, 
 
 PROPS["C01"]["groups"] += [_V1_STEP_A, _V1_STEP_B, _V1_PRIOR, _V1_MAIN, _V1_NEW, _V1_SIMPLE] + _V1_C17
 PROPS["C02"]["groups"] += [_V1_STEP_A, _V1_STEP_B, _V1_PRIOR, _V1_MAIN, _V1_SIMPLE] + _V1_C17
-PROPS["C05"]["groups"] += [_V1_ROUND, _V1_NEW]
+PROPS["C05"]["groups"] += [_V1_ROUND, _V1_SAT3, _V1_NEW]
 PROPS["C06"]["groups"] += [_V1_ROUND, _v1p("^VerifC06_progress_two_rounds$", dict(n=[2, 3], Hmax=[3]), dict(n=[2, 3, 4], Hmax=[4])), _V1_MAIN, _V1_Z6, _v1p("^VerifC01_step_calcTactic$", dict(n=[1, 2, 3]), dict(n=[1, 2, 3, 4]))]
 PROPS["C07"]["groups"] += [_V1_MAIN, _V1_PROMPT, _V1_Z7, _V1_SIMPLE, _V1_C17RUN, _v1p("^VerifC01_step_io$", dict(n=[1, 2, 3], J=[2]), dict(n=[1, 2, 3, 4], J=[3]))]
 PROPS["C15"]["groups"] += [_V1_STEP_A, _V1_STEP_B, _V1_MAIN, _V1_NEW, _V1_RFAULT, _V1_RUNFAULT, _V1_SIMPLE]
